@@ -21,6 +21,7 @@ class Batching:
         self.split_inputs = 0
         self.empty_inputs = 0
         self.prefix = {}
+        self.seen_hist = {}
 
     def on_event(self, env, head):
         ctx, m = self.ctx, self.m
@@ -84,8 +85,24 @@ class Batching:
                 ctx.report('batch_size', f'batcher {b}: batch under construction has {len(wip_leaves)} >= {size}')
                 return
             ctx.count('batcher_checks')
-        # a held batch's own routing history is a suffix of every contained part's
         cen = ctx.census
+        # what a part's routing history recorded at one event boundary stays its prefix at every later one (entries
+        # of refused hand-overs come and go within an event)
+        for did, s in cen.slots.items():
+            for slot, val in s.items():
+                if val is None:
+                    continue
+                for top in (val if slot == 'buf' else [val]):
+                    for p in leaves_of(top):
+                        ph = p._routing_history
+                        old = self.seen_hist.get(id(p))
+                        if old is not None and (len(ph) < len(old[1]) or any(x is not y for x, y in zip(ph, old[1]))):
+                            ctx.report('history_lost_entries', f'part {p.name} held by {did}: routing history was '
+                                       f'{[d.name for d in old[1]]}, now {[d.name for d in ph]}')
+                            return
+                        self.seen_hist[id(p)] = (p, list(ph))
+                        ctx.count('part_history_prefix_checks')
+        # a held batch's own routing history is a suffix of every contained part's
         for did, s in cen.slots.items():
             for slot, val in s.items():
                 if val is None:
@@ -101,15 +118,25 @@ class Batching:
                         # every update of the batch's history must have been applied to the part as it is:
                         # what the part's history was when it joined stays its prefix, the rest is the batch's
                         key = (id(top), id(p))
-                        pre = self.prefix.get(key)
-                        if pre is None:
-                            if len(ph) >= len(h):
-                                self.prefix[key] = list(ph[:len(ph) - len(h)])
-                        elif len(ph) != len(pre) + len(h) or any(x is not y for x, y in zip(ph, pre + list(h))):
-                            ctx.report('batch_history', f'batch {top.name} at {did}: part {p.name} history '
-                                       f'{[d.name for d in ph]} is not its history when it joined the batch '
-                                       f'{[d.name for d in pre]} followed by the batch\'s {[d.name for d in h]}')
-                            return
+                        rec = self.prefix.get(key)
+                        off = 0
+                        if rec is None:
+                            if ':ins' in uid(p) and len(ph) < len(h):
+                                # put into the batch by hand: what the batch recorded before does not concern it
+                                self.prefix[key] = (list(ph), len(h))
+                                off = len(h)
+                            elif len(ph) >= len(h):
+                                self.prefix[key] = (list(ph[:len(ph) - len(h)]), 0)
+                        else:
+                            pre, off = rec
+                            own = list(h[off:])
+                            if len(ph) != len(pre) + len(own) or any(x is not y for x, y in zip(ph, pre + own)):
+                                ctx.report('batch_history', f'batch {top.name} at {did}: part {p.name} history '
+                                           f'{[d.name for d in ph]} is not its history when it joined the batch '
+                                           f'{[d.name for d in pre]} followed by the batch\'s {[d.name for d in own]}')
+                                return
+                        if off:
+                            continue
                         if len(ph) < len(h) or any(x is not y for x, y in zip(ph[len(ph) - len(h):], h)):
                             ctx.report('batch_history', f'batch {top.name} at {did}: history '
                                        f'{[d.name for d in h]} is not a suffix of part {p.name} history '
